@@ -149,7 +149,9 @@ def emit_uvl(ref, rng):
         return ""
 
     if rng.random() < 0.25:
-        lines.append("namespace " + rng.choice(["Shop", "my_ns", '"Quoted NS"']))
+        # the namespace may well be called like a feature of the model (often the root)
+        own = uvl_id(rng.choice([ref["root"]["n"]] + rm.names(ref)[:3]), rng)
+        lines.append("namespace " + rng.choice(["Shop", "my_ns", '"Quoted NS"', own, own]))
         choices.append("namespace")
     if rng.random() < 0.25:
         lines.append("include")
@@ -503,7 +505,9 @@ def emit_fide(ref, rng):
 
 # =========================================================================== FaMa XML
 
-def emit_fama(ref, rng):
+def emit_fama(ref, rng, multi_binary=False):
+    """multi_binary: also write relations with several children as <binaryRelation> with
+    several <solitaryFeature> elements (not what FaMa tools write, but the reader takes it)."""
     pretty = rng.random() < 0.5
     nl = "\n" if pretty else ""
     counter = [0]
@@ -527,7 +531,8 @@ def emit_fama(ref, rng):
         for rel in feat["rels"]:
             card = "%s<cardinality%s/>%s" % (ind + "  " if pretty else "",
                                              attrs([("min", rel["min"]), ("max", rel["max"])]), nl)
-            if len(rel["ch"]) == 1 and rng.random() < 0.9:
+            if (len(rel["ch"]) == 1 and rng.random() < 0.9) or \
+                    (multi_binary and rng.random() < 0.5):
                 el, cel = tag("binaryRelation"), tag("solitaryFeature")
             else:
                 el, cel = tag("setRelation"), tag("groupedFeature")
@@ -562,7 +567,7 @@ def emit_fama(ref, rng):
             out.append("<%s%s/>%s" % (tag("excludes"), attrs([("name", ctc["n"]), (
                 "feature", e[1][1]), ("excludes", e[2][1])]), nl))
     out.append("</feature-model>" + nl)
-    return "".join(out), {"choices": [case]}
+    return "".join(out), {"choices": [case] + (["multi_binary"] if multi_binary else [])}
 
 
 # =========================================================================== AFM
